@@ -94,11 +94,11 @@ PLANS = {
                [D("mix", n=50, steps=100, procs=6, dry=60), D("reap", n=50, steps=100, procs=6, dry=60), D("up", n=50, steps=100, procs=6, dry=60)],
                "non-trivial: a scan of a dry-mode group, by the branch the scan took (scale-up, scale-down, reaping, below-minimum, from zero) and switch (global / group)",
                ["C11:dry-up", "C11:dry-down", "C11:dry-idle", "C11:dry-taint", "C11:dry-untaint", "C11:dry-cloud-increase", "C11:group-flag", "C11:global-flag"]),
-    "C15": ctl(["updown", "lag"], ["updown", "reap", "lag"],
+    "C15": ctl(["updown", "lag", "conflict"], ["updown", "reap", "lag", "conflict"],
                [D("mix", lag=True, faults=10), D("down", lag=True, faults=10)],
                [D("mix", n=60, steps=100, procs=8, lag=True, faults=10), D("down", n=60, steps=100, procs=8, lag=True, faults=10)],
                "non-trivial: a scan that wrote or removed the escalator taint (object diff of every PUT against the API copy), or met an already tainted node behind a lagging lister view",
-               ["C15:taint-write", "C15:untaint-write", "C15:lagging-view-already-tainted"]),
+               ["C15:taint-write", "C15:untaint-write", "C15:lagging-view-already-tainted", "C15:write-lost-a-race"]),
     "C20": ctl(["reap", "linger"], ["reap", "updown", "linger", "lag"],
                [D("mix", odd=True, lag=True, faults=45, enum=15), D("reap", odd=True, faults=45, enum=15), D("lock", odd=True, faults=30, enum=20)],
                [D("mix", n=60, steps=100, procs=8, odd=True, lag=True, faults=45, enum=15, enum2=True), D("reap", n=60, steps=100, procs=8, odd=True, faults=45, enum=15, enum2=True),
